@@ -37,4 +37,64 @@ PROPS = {
              'as the property monitor; 2/4/16 concurrent allocators; distinct = distinct exhaustive histories and full cycles',
         assumptions=['concurrent callers: atomicity rests on the mutex (fact F-lock); the thorough tier runs the harness under the race detector'],
     ),
+    'C06': dict(
+        harness='brokertrace', syn=True, args=['-prop', 'C06'], shards=dict(quick=8, thorough=16),
+        rule='random histories of connect/subscribe(1-4 filters, differing QoS)/unsubscribe/publish/ack over 1-5 clients, 8 topics x 14 filters with wildcards and overlaps, all QoS pairs; every broker output must be an enabled output of the Lean broker model; delivery monitor (independent 4.7 matcher) on the real outputs; distinct = distinct traces',
+        assumptions=['scripted peers at quiescence granularity inside a testing/synctest bubble (go1.26): one stimulus, then every goroutine of the broker durably blocked, then the next',
+                     'not modelled: a publish blocking on the full queue of another online client, a processor blocked on an exhausted publish/subscribe token (the generators stay inside; the model answers unsupported otherwise)'],
+    ),
+    'C07': dict(
+        harness='brokertrace', syn=True, args=['-prop', 'C07'], shards=dict(quick=8, thorough=16),
+        rule='publisher scripts over {PUBLISH(id in 1..2, qos 1/2, dup), PUBREL(known/unknown id), drop+resume, failing k-th send, late/sync/released acks}; monitors: ack-after-accept, QoS 2 handed to the backend exactly once, PUBREL always answered; distinct = distinct traces',
+        assumptions=['scripted peers at quiescence granularity inside a testing/synctest bubble (go1.26): one stimulus, then every goroutine of the broker durably blocked, then the next',
+                     'not modelled: a publish blocking on the full queue of another online client, a processor blocked on an exhausted publish/subscribe token (the generators stay inside; the model answers unsupported otherwise)'],
+    ),
+    'C08': dict(
+        harness='brokertrace', syn=True, args=['-prop', 'C08'], shards=dict(quick=8, thorough=16),
+        rule='offline-queue scripts (queue 3/5/100, window 1-4, loss during resend) and random subscriber behaviours (ack, withhold, drop, reconnect clean/unclean, failing sends); distinct = distinct traces',
+        assumptions=['scripted peers at quiescence granularity inside a testing/synctest bubble (go1.26): one stimulus, then every goroutine of the broker durably blocked, then the next',
+                     'not modelled: a publish blocking on the full queue of another online client, a processor blocked on an exhausted publish/subscribe token (the generators stay inside; the model answers unsupported otherwise)'],
+    ),
+    'C11': dict(
+        harness='brokertrace', syn=True, args=['-prop', 'C11'], shards=dict(quick=8, thorough=16),
+        rule='random histories with 60% retained publishes, empty-payload clears, retained wills, frequent subscriptions with 14 filters; distinct = distinct traces',
+        assumptions=['scripted peers at quiescence granularity inside a testing/synctest bubble (go1.26): one stimulus, then every goroutine of the broker durably blocked, then the next',
+                     'not modelled: a publish blocking on the full queue of another online client, a processor blocked on an exhausted publish/subscribe token (the generators stay inside; the model answers unsupported otherwise)'],
+    ),
+    'C12': dict(
+        harness='brokertrace', syn=True, args=['-prop', 'C12'], shards=dict(quick=8, thorough=16),
+        rule='termination cause (DISCONNECT, drop, out-of-protocol, second CONNECT, takeover, backend close, send failure, server-only packet, rejected auth) x protocol state (before CONNECT, idle, mid inbound/outbound QoS 2, window full) x will QoS/retain x online/offline/late observers; will-count monitor; distinct = (cause,state,will flags)',
+        assumptions=['scripted peers at quiescence granularity inside a testing/synctest bubble (go1.26): one stimulus, then every goroutine of the broker durably blocked, then the next',
+                     'not modelled: a publish blocking on the full queue of another online client, a processor blocked on an exhausted publish/subscribe token (the generators stay inside; the model answers unsupported otherwise)'],
+    ),
+    'C13': dict(
+        harness='brokertrace', syn=True, args=['-prop', 'C13'], shards=dict(quick=8, thorough=16),
+        rule='takeover scripts: repeated CONNECTs with one client id (clean/unclean) against an old connection that is idle, mid-handshake, failing or dropped, with traffic towards the id; monitors: one live connection per id, old terminated before new CONNACK; distinct = distinct traces',
+        assumptions=['scripted peers at quiescence granularity inside a testing/synctest bubble (go1.26): one stimulus, then every goroutine of the broker durably blocked, then the next',
+                     'not modelled: a publish blocking on the full queue of another online client, a processor blocked on an exhausted publish/subscribe token (the generators stay inside; the model answers unsupported otherwise)'],
+    ),
+    'C14': dict(
+        harness='brokertrace', syn=True, args=['-prop', 'C14'], shards=dict(quick=8, thorough=16),
+        rule='hostile random histories (out-of-protocol packets, spurious acks, second CONNECT, drops, failing sends, wills, retained) next to ordinary traffic; monitors: terminate exactly once per setup, closed signal fires, no goroutine left (synctest bubble must drain), process crash = violation; distinct = distinct traces',
+        assumptions=['scripted peers at quiescence granularity inside a testing/synctest bubble (go1.26): one stimulus, then every goroutine of the broker durably blocked, then the next',
+                     'not modelled: a publish blocking on the full queue of another online client, a processor blocked on an exhausted publish/subscribe token (the generators stay inside; the model answers unsupported otherwise)'],
+    ),
+    'C15': dict(
+        harness='brokertrace', syn=True, args=['-prop', 'C15'], shards=dict(quick=8, thorough=16),
+        rule='2-5 clients publishing numbered messages at all QoS to overlapping topics, windows 1-10, drops/resumes with unacknowledged messages; order monitor per (publisher, QoS) at every receiver, resend order through the model; distinct = distinct traces',
+        assumptions=['scripted peers at quiescence granularity inside a testing/synctest bubble (go1.26): one stimulus, then every goroutine of the broker durably blocked, then the next',
+                     'not modelled: a publish blocking on the full queue of another online client, a processor blocked on an exhausted publish/subscribe token (the generators stay inside; the model answers unsupported otherwise)'],
+    ),
+    'C16': dict(
+        harness='brokertrace', syn=True, args=['-prop', 'C16'], shards=dict(quick=8, thorough=16),
+        rule='windows 1-4, two clients, long publish streams with immediate/batched/out-of-order acks and reconnects; window monitor on the real outputs; the model requires delivery whenever a token is free; distinct = distinct traces',
+        assumptions=['scripted peers at quiescence granularity inside a testing/synctest bubble (go1.26): one stimulus, then every goroutine of the broker durably blocked, then the next',
+                     'not modelled: a publish blocking on the full queue of another online client, a processor blocked on an exhausted publish/subscribe token (the generators stay inside; the model answers unsupported otherwise)'],
+    ),
+    'C20': dict(
+        harness='brokertrace', syn=True, args=['-prop', 'C20'], shards=dict(quick=8, thorough=16),
+        rule='first packet = each of the 14 types (CONNECT with valid/invalid/missing credentials), then 1-3 further packets incl. second CONNECT, server-only packets, pipelined batches of SUBSCRIBE/UNSUBSCRIBE/PINGREQ/PUBLISH; request/response monitor; distinct = (first packet, follow-ups, credentials)',
+        assumptions=['scripted peers at quiescence granularity inside a testing/synctest bubble (go1.26): one stimulus, then every goroutine of the broker durably blocked, then the next',
+                     'not modelled: a publish blocking on the full queue of another online client, a processor blocked on an exhausted publish/subscribe token (the generators stay inside; the model answers unsupported otherwise)'],
+    ),
 }
